@@ -358,28 +358,29 @@ impl PolicySet {
     ) -> Result<Policy, PolicySetPolicyRemovalError> {
         // Invariant: if `policy_id` is a key in both `self.links` and `self.templates`,
         // then self.templates[policy_id] has exactly one link: self.links[policy_id]
-        let policy = match self.links.remove(policy_id) {
-            Some(p) => p,
-            None => {
-                return Err(PolicySetPolicyRemovalError::RemovePolicyNoLinkError(
-                    policy_id.clone(),
-                ))
-            }
-        };
+        // Check both maps before removing anything, so that a failed removal
+        // leaves the set (including its iteration order) as it was
+        if !self.links.contains_key(policy_id) {
+            return Err(PolicySetPolicyRemovalError::RemovePolicyNoLinkError(
+                policy_id.clone(),
+            ));
+        }
+        if !self.templates.contains_key(policy_id) {
+            // `policy_id` is a template-linked policy, not a static policy
+            return Err(PolicySetPolicyRemovalError::RemovePolicyNoTemplateError(
+                policy_id.clone(),
+            ));
+        }
         //links mapped by `PolicyId`, so `policy` is unique
-        match self.templates.remove(policy_id) {
-            Some(_) => {
+        match self.links.remove(policy_id) {
+            Some(policy) => {
+                self.templates.remove(policy_id);
                 self.template_to_links_map.remove(policy_id);
                 Ok(policy)
             }
-            None => {
-                //If we removed the link but failed to remove the template
-                //restore the link and return an error
-                self.links.insert(policy_id.clone(), policy);
-                Err(PolicySetPolicyRemovalError::RemovePolicyNoTemplateError(
-                    policy_id.clone(),
-                ))
-            }
+            None => Err(PolicySetPolicyRemovalError::RemovePolicyNoLinkError(
+                policy_id.clone(),
+            )),
         }
     }
 
